@@ -10,6 +10,19 @@ tokens as recognised by PATH_ARG_RE.  `render` gives back the pattern string; th
 The model FOLLOWS THE CODE: since the `fix:` commit for C19 the literal text between variables is
 passed through `re.escape`, so every literal character is a LITERAL node of the regex.
 (Before that commit a literal `.` was the regex `any`; see known_findings.json, "fixed".)
+
+Which resources a service sees, and which helper each gets, is modelled in Model/ResourceVis.lean.
+
+NOT modelled here (reached by T2/T3 only, or excluded):
+  * the tokenisation itself (PATH_ARG_RE.finditer over the pattern string): T1 bridges the regex, T2
+    compares `pathArgs`/`formatted`/the regex AST with the real attributes for every generated pattern;
+  * `re.escape`: a literal character is a LITERAL node whatever it is (T2 compares the ASTs CPython
+    builds from the real string, so a character `re.escape` mishandled would show as a disagreement);
+  * literal text containing `{` or `}` (`str.format` raises) and variables with duplicate names
+    (`re.compile` raises): outside the property's quantifier, excluded in the generator;
+  * only the FIRST pattern of a resource is used by the code; further patterns are ignored (as the code does);
+  * the emitted Python around the regex (staticmethod, `m.groupdict() if m else {}`, keyword arguments of
+    `<name>_path`): T3 on the imported sync and async client.
 -/
 namespace GapicModel.Model.PathHelpers
 open GapicModel.Regex
